@@ -30,6 +30,8 @@ func runC08(p *eng.Prog, r *eng.Report, tier string) {
 	if sv := c.fn("C08.8", "", "(*Session).Serve"); sv != nil {
 		serveCtxReread(c, "C08.8", sv)
 	}
+	// a received stream error (or any other failure) is what Serve returns
+	sendErrorReturnsError(c, "C08.9")
 	closerTypestate(c, "C08.5")
 	c05DeferWriterID(c, "C08.5")
 	// C08.7 stream-level constructs END the session: the filter's errors are
